@@ -503,6 +503,10 @@ class GateMemoizer:
         def make_context_entry(arg):
             if isinstance(arg, str):
                 return context.get(arg)
+            elif isinstance(arg, (list, tuple)):
+                # Names also occur inside an argument, e.g. both names in
+                # ("array_item", "r", "i")
+                return tuple(make_context_entry(v) for v in arg)
             else:
                 return None
 
